@@ -25,6 +25,8 @@ PLAN = {
     "C01c": "C01", "C02c": "C02 C03", "C03c": "C03", "C04c": "C04", "C05c": "C05", "C06c": "C06", "C07c": "C07 C11", "C08c": "C08 C11",
     "C09c": "C09 C08", "C10c": "C10 C14", "C11c": "C11", "C12c": "C12", "C13c": "C13", "C14c": "C14", "C15c": "C15 C03", "C16c": "C16",
     "C17c": "C17", "C18c": "C18", "C19c": "C19", "C20c": "C20",
+    "C01d": "C01", "C04d": "C04", "C06d": "C06", "C07d": "C07 C11", "C08d": "C08 C09", "C09d": "C09 C18", "C10d": "C10 C12", "C11d": "C11",
+    "C14d": "C14", "C15d": "C15", "C16d": "C16 C10", "C18d": "C18",
 }
 
 
